@@ -41,7 +41,7 @@ for c in $CHECKS; do
   results="$results{\"check\":\"$c\",\"tier\":\"quick\",\"exit\":$rc,\"violation_lines\":$nv},"
 done
 git -C /repo checkout -- .
-S="/verif/seeded/${ID}_$K"; mkdir -p "$S"
+S="/verif/seeded/${ID}_$((K + ${SEED_OFFSET:-0}))"; mkdir -p "$S"
 cp "$P" "$S/patch.diff"; cp "$D" "$S/demo.rs"
 python3 - "$M" "$S/meta.json" "$ID" "$ok" "[${results%,}]" "$base_demo" "$suite" "$mut_demo" <<'PY'
 import json,sys
